@@ -11,6 +11,7 @@ package lossless
 import (
 	"runtime"
 	"sync"
+	"github.com/deepteams/webp/internal/verifhook"
 )
 
 const (
@@ -212,6 +213,7 @@ func (hc *HashChain) Fill(argb []uint32, quality int, xsize, ysize int, lowEffor
 	// left-extension) and give different matches, so the choice must not
 	// depend on the CPU count: only the number of workers does.
 	numWorkers := runtime.GOMAXPROCS(0)
+	numWorkers = verifhook.Workers("lossless.HashChain.Fill", numWorkers)
 	if size > 50000 && !lowEffort {
 		hc.fillParallel(argb, xsize, size, iterMax, winSize, numWorkers)
 	} else {
